@@ -99,8 +99,8 @@ theorem stringify_ok (env : Env) (codec : CodecFn) (f : Nat) (hc : CodecOK env c
 theorem fl_size_field (n : String) (e st : Bool) (t : TD) (r : FL) :
     (FL.cons n e st t r).size = t.size + r.size + 1 := by simp [FL.size]
 
-theorem peel_size (ft : TD) : (match ft with | .ptr e => e | t => t).size ≤ ft.size := by
-  cases ft <;> simp [TD.size]
+theorem peel_size (ft : TD) : (peel ft).size ≤ ft.size := by
+  cases ft <;> simp [peel, TD.size]
 
 theorem fields_ok (env : Env) (codec : CodecFn) (strct : StructFn) (f : Nat) (hc : CodecOK env codec f)
     (hs : StructOK env strct f) (a : Bool) :
